@@ -164,7 +164,7 @@ def fam_cascade(rng, nmax):
         ups = list(range(n0))
         up = rng.choice(ups) if ups else None
         up2 = rng.choice(ups) if len(ups) > 1 else None
-        kind = rng.choice(["switch", "latch", "latch", "gated_switch", "relay", "and_latch"])
+        kind = rng.choice(["switch", "latch", "latch", "gated_switch", "relay", "and_latch", "oscillator"])
         room = nmax - n0
         if kind in ("switch", "gated_switch") and room < 2:
             kind = "latch"
@@ -198,6 +198,8 @@ def fam_cascade(rng, nmax):
                 funcs.append([[x], [0, 1]])
             else:
                 funcs.append([[x, up, up2], _tt_of(lambda v, u, w: (v or u) and w, 3)])
+        elif kind == "oscillator":
+            funcs.append([[n0], [1, 0]])  # x = !x: a source SCC that never stabilises
         else:  # relay
             funcs.append([[up], [1, 0] if neg else [0, 1]])
     return funcs[:nmax], []
@@ -267,11 +269,21 @@ def fam_maa_cascade(rng, nmax):
         return fam_cascade(rng, nmax)
     core = rng.choice(small)
     funcs = [[list(r), list(t)] for r, t in core]
-    room = nmax - len(funcs)
+    n0 = len(funcs)
+    room = nmax - n0
     if room > 0:
         f, _ = fam_cascade(rng, rng.randint(min(2, room), room))
-        f, _ = _shift(f, [], len(funcs))
+        f, _ = _shift(f, [], n0)
         funcs += f
+        # optionally let a cascade variable gate one core variable (f' = gate ? f : alt), so
+        # that the motif-avoidant attractor only exists in some trap spaces of the cascade part
+        if rng.random() < 0.5:
+            gate = rng.randrange(n0, len(funcs))
+            tgt = rng.randrange(n0)
+            regs, tt = funcs[tgt]
+            if len(regs) < 4 and gate not in regs:
+                alt = [rng.randint(0, 1) for _ in range(len(tt))]
+                funcs[tgt] = [regs + [gate], (alt + tt) if rng.random() < 0.5 else (tt + alt)]
     return funcs, []
 
 
